@@ -71,6 +71,64 @@ impl Join for RayonJoin {
     }
 }
 
+// Verification hook (off unless built with --cfg blake3_team_blake3_verif): a
+// Join implementation whose execution order is chosen per split by a script
+// (0 = left half first, 1 = right half first, 2 = both halves on real
+// threads). Choices are consumed from a process-wide cursor; when the script
+// runs out, the remaining splits run left-first.
+#[cfg(all(blake3_team_blake3_verif, feature = "std"))]
+pub(crate) mod verif {
+    use std::sync::Mutex;
+    use std::sync::atomic::{AtomicUsize, Ordering};
+
+    static SCRIPT: Mutex<Vec<u8>> = Mutex::new(Vec::new());
+    static CURSOR: AtomicUsize = AtomicUsize::new(0);
+
+    pub(crate) fn set_script(script: &[u8]) {
+        *SCRIPT.lock().unwrap() = script.to_vec();
+        CURSOR.store(0, Ordering::SeqCst);
+    }
+
+    pub(crate) fn splits_taken() -> usize {
+        CURSOR.load(Ordering::SeqCst)
+    }
+
+    fn next_choice() -> u8 {
+        let i = CURSOR.fetch_add(1, Ordering::SeqCst);
+        SCRIPT.lock().unwrap().get(i).copied().unwrap_or(0)
+    }
+
+    pub enum ScriptedJoin {}
+
+    impl super::Join for ScriptedJoin {
+        fn join<A, B, RA, RB>(oper_a: A, oper_b: B) -> (RA, RB)
+        where
+            A: FnOnce() -> RA + Send,
+            B: FnOnce() -> RB + Send,
+            RA: Send,
+            RB: Send,
+        {
+            match next_choice() {
+                1 => {
+                    let rb = oper_b();
+                    let ra = oper_a();
+                    (ra, rb)
+                }
+                2 => std::thread::scope(|scope| {
+                    let handle_b = scope.spawn(oper_b);
+                    let ra = oper_a();
+                    (ra, handle_b.join().unwrap())
+                }),
+                _ => {
+                    let ra = oper_a();
+                    let rb = oper_b();
+                    (ra, rb)
+                }
+            }
+        }
+    }
+}
+
 #[cfg(test)]
 mod test {
     use super::*;
